@@ -779,6 +779,19 @@ def okNs : List Node → Bool
   | x :: xs => okN x && okNs xs
 end
 
+mutual
+/-- the shape of a RAW tree: as `okN`, but a Concatenate / Alternate may be childless (`(?:)`, `()`: the
+    parser's empty Concatenate, which `reduceConcatenation` turns into Empty) -/
+def okRaw : Node → Bool
+  | .mk t _ _ _ _ _ _ kids => (shapeOk t kids.length || ((t == 24 || t == 25) && kids.length == 0)) && okRaws kids
+def okRaws : List Node → Bool
+  | [] => true
+  | x :: xs => okRaw x && okRaws xs
+end
+
+/-- a raw tree the reducer accepts: `okRaw` everywhere, and the root itself has its children -/
+def okRawTree (root : Node) : Bool := okRaw root && shapeOk root.t root.kids.length
+
 /-! ## To the writer's tree -/
 
 /-- what the writer reads of a node whose children have been converted (as leg Wr serialises `RegexNode`);
